@@ -312,6 +312,10 @@ fn decode_domains(t: &mut Tape) -> OptCase {
                 let d = t.choose(DOMS);
                 Some(d.split_once('.').map(|x| x.1.to_string()).unwrap_or(d.to_string()))
             }
+            5 if t.chance(1, 2) => {
+                let d = t.choose(DOMS);
+                Some(deep(t, d))
+            }
             5 => Some(format!("x{}", t.choose(DOMS))),
             6 => Some(if t.chance(1, 2) { "unrelated.io".to_string() } else { format!("{}d{}.example", t.choose(&["", "sub.", "x"]), t.choose(&[0usize, 1, 14, 15, 16, 17, 31, 32, 63, 99, 100])) }),
             _ => Some(format!("{}.evil.io", t.choose(DOMS))),
@@ -321,6 +325,168 @@ fn decode_domains(t: &mut Tape) -> OptCase {
         reqs.push((t.choose(&["script", "image", "xhr", "document", "other"]).to_string(), t.choose(&["https", "http", "wss"]).to_string(), true, src));
     }
     OptCase { ast, reqs: Some(reqs), scheme_form: None }
+}
+
+// ---- groups: several domain-restricted rules in ONE token bucket of an optimised engine ---------
+
+#[derive(Clone, Debug, Serialize, Deserialize)]
+pub struct GroupCase {
+    /// per rule: its domain= list ((domain, negated)); an empty list renders no domain option
+    pub lists: Vec<Vec<(String, bool)>>,
+    pub types: Vec<(String, bool)>,
+    pub exception: bool,
+    pub optimize: bool,
+    /// (rule index, source host)
+    pub probes: Vec<(usize, Option<String>)>,
+}
+
+impl Case for GroupCase {
+    fn smaller(&self) -> Vec<Self> {
+        let mut v = vec![];
+        if self.probes.len() > 1 {
+            for p in &self.probes {
+                let mut c = self.clone();
+                c.probes = vec![p.clone()];
+                v.push(c);
+            }
+        }
+        // dropping a rule keeps indices stable only for the last one
+        if self.lists.len() > 1 && self.probes.iter().all(|p| p.0 + 1 < self.lists.len()) {
+            let mut c = self.clone();
+            c.lists.pop();
+            v.push(c);
+        }
+        for i in 0..self.lists.len() {
+            for j in 0..self.lists[i].len() {
+                let mut c = self.clone();
+                c.lists[i].remove(j);
+                v.push(c);
+            }
+        }
+        if !self.types.is_empty() {
+            let mut c = self.clone();
+            c.types.clear();
+            v.push(c);
+        }
+        v
+    }
+}
+
+fn group_ast(c: &GroupCase, k: usize) -> OptAst {
+    OptAst { types: c.types.clone(), party: None, party2: None, domains: c.lists[k].clone(), important: false, exception: c.exception, modifier: Modifier::None, host_caret_form: false }
+}
+
+pub fn check_group(c: &GroupCase, obs: &mut Obs) -> Result<(), String> {
+    // `/cpath/slotNN`: the trailing slotNN is never a token, so every rule is indexed under `cpath`
+    let mut rules = vec![];
+    for k in 0..c.lists.len() {
+        let o = group_ast(c, k).render();
+        rules.push(format!("{}/cpath/slot{}{}{}", if c.exception { "@@" } else { "" }, 10 + k, if o.is_empty() { "" } else { "$" }, o));
+    }
+    for r in &rules {
+        if !matches!(parse_filter(r, true, std_opts()), Ok(ParsedFilter::Network(_))) {
+            obs.exclude("option combination rejected by the parser");
+            return Ok(());
+        }
+    }
+    if c.exception {
+        rules.push("/cpath/".to_string());
+    }
+    let engine = build_engine(&rules, false, c.optimize, &[]);
+    if c.lists.iter().any(|l| l.len() >= 8) {
+        obs.label("list>=8");
+    }
+    for (k, src) in &c.probes {
+        let k = *k % c.lists.len();
+        let url = format!("https://{}/cpath/slot{}?p=1", HOST, 10 + k);
+        let s = source_url(true, src);
+        let Ok(req) = Request::new(&url, &s, "script") else { continue };
+        obs.inner_evals += 1;
+        let facts = ReqFacts { raw_type: "script", scheme: "https", third_party: true, source_host: src.as_deref() };
+        let want = group_ast(c, k).applies(&facts);
+        if want {
+            obs.nontrivial = true;
+        }
+        if src.as_deref().map_or(false, |h| h.matches('.').count() >= 9) {
+            obs.label("source>=10-labels");
+        }
+        let b = engine.check_network_request(&req);
+        let got = if c.exception { !b.matched && b.exception.is_some() } else { b.matched };
+        if got != want {
+            let mut one = c.clone();
+            one.probes = vec![(k, src.clone())];
+            return Err(format!(
+                "REPLAY_CASE:{}\nrules {:?} (optimize={}): request {} from {:?}: reference says rule #{} applies={}, engine says {} ({:?})",
+                serde_json::to_string(&one).unwrap(), rules, c.optimize, url, src, k, want, got, Verdict::of(&b)
+            ));
+        }
+    }
+    Ok(())
+}
+
+fn deep(t: &mut Tape, base: &str) -> String {
+    let n = t.pick(14);
+    let mut s = String::new();
+    for i in (0..n).rev() {
+        s.push_str(&format!("l{}.", i + 1));
+    }
+    s + base
+}
+
+fn decode_group(t: &mut Tape) -> GroupCase {
+    let n = 2 + t.pick(5);
+    let pool = 8 + t.pick(40);
+    let mut lists = vec![];
+    for _ in 0..n {
+        let m = match t.pick(6) {
+            0 => 0,
+            1 | 2 => 1 + t.pick(4),
+            3 => 5 + t.pick(8),
+            _ => 8 + t.pick(24),
+        };
+        let neg_all = t.chance(1, 5);
+        let mut l = vec![];
+        for _ in 0..m {
+            l.push((format!("d{}.example", t.pick(pool)), neg_all || t.chance(1, 12)));
+        }
+        lists.push(l);
+    }
+    if t.chance(1, 3) && n >= 2 {
+        // equal-length lists over the same pool (same bloom union, different members)
+        let len = lists[0].len();
+        if len > 0 {
+            let mut l = vec![];
+            for _ in 0..len {
+                l.push((format!("d{}.example", t.pick(pool)), false));
+            }
+            lists[1] = l;
+        }
+    }
+    let types = if t.chance(1, 4) { vec![(t.choose(&["script", "image"]).to_string(), t.chance(1, 3))] } else { vec![] };
+    let mut probes = vec![];
+    for _ in 0..(4 + t.pick(8)) {
+        let k = t.pick(n);
+        let src = match t.pick(6) {
+            0 => None,
+            1 => Some("unrelated.io".to_string()),
+            2 => {
+                let d = format!("d{}.example", t.pick(pool));
+                Some(deep(t, &d))
+            }
+            _ => {
+                // a domain listed by some rule (usually another one), possibly a deep subdomain
+                let j = t.pick(n);
+                if lists[j].is_empty() {
+                    Some(format!("d{}.example", t.pick(pool)))
+                } else {
+                    let d = lists[j][t.pick(lists[j].len())].0.clone();
+                    Some(if t.chance(1, 3) { deep(t, &d) } else { d })
+                }
+            }
+        };
+        probes.push((k, src));
+    }
+    GroupCase { lists, types, exception: t.chance(1, 5), optimize: t.chance(3, 4), probes }
 }
 
 /// random combinations the grid does not enumerate: two party options, scheme-only patterns
@@ -350,7 +516,7 @@ fn decode_combos(t: &mut Tape) -> OptCase {
 }
 
 pub fn check(ctx: &mut Ctx) {
-    ctx.rule = "exhaustive: every type-option set of size <= 2 over the 11 resource types with all sign combinations, all aliases, document combinations and a few triples (x 9 party spellings x exception x {none, csp, removeparam} x {plain pattern, ||host^ form} x important) against the full request grid of 26 request-type strings x 6 schemes x {first, third party}; combos: random type sets with one or two (possibly contradictory) party options and scheme-only patterns ('|ws://', '|http://', '|https://') against random grid requests; random: domain=/~domain lists (1-5 entries, duplicates, public-suffix entries) against listed / sub- / parent / look-alike / unrelated / absent sources. Observed at NetworkFilter::matches and at a single-rule engine (matched / exception / csp / rewritten_url). Non-trivial = the reference says the rule applies to the request.".into();
+    ctx.rule = "exhaustive: every type-option set of size <= 2 over the 11 resource types with all sign combinations, all aliases, document combinations and a few triples (x 9 party spellings x exception x {none, csp, removeparam} x {plain pattern, ||host^ form} x important) against the full request grid of 26 request-type strings x 6 schemes x {first, third party}; combos: random type sets with one or two (possibly contradictory) party options and scheme-only patterns ('|ws://', '|http://', '|https://') against random grid requests; random: domain=/~domain lists (1-5 entries, duplicates, public-suffix entries) against listed / sub- / parent / look-alike / unrelated / absent sources, including sources up to 13 labels below a listed entry; group: 2-6 rules `/cpath/slotNN$domain=...` that share one token bucket, domain lists of 0-31 entries over a pool of 8-47 domains (1 in 3 with two equal-length lists), optimisation on (3 in 4) or off, probed per rule from domains listed by it or by its neighbours (expected: exactly the probed rule's own list decides). Observed at NetworkFilter::matches and at a single-rule engine (matched / exception / csp / rewritten_url). Non-trivial = the reference says the rule applies to the request.".into();
     ctx.assumptions = vec![
         "csp_report maps to no resource-type option; websocket schemes force the websocket type; exceptions also apply to documents".into(),
         "option combinations the parser rejects (csp with types, removeparam exception) are skipped and counted".into(),
@@ -380,8 +546,13 @@ pub fn check(ctx: &mut Ctx) {
     drive(ctx, "domains", n, 120, &decode_domains, &check_case);
     let n = ctx.tier.pick(300_000, 3_000_000);
     drive(ctx, "combos", n, 120, &decode_combos, &check_case);
+    let n = ctx.tier.pick(150_000, 1_500_000);
+    drive(ctx, "group", n, 400, &decode_group, &check_group);
 }
 
 pub fn replay(ctx: &mut Ctx, v: &Value) {
+    if v.get("check").and_then(|c| c.as_str()) == Some("group") {
+        return replay_file::<GroupCase>(ctx, v, &check_group);
+    }
     replay_file::<OptCase>(ctx, v, &check_case);
 }
